@@ -123,103 +123,155 @@ Section Serde.
              end
     end.
 
+  (* ---- building blocks, parameterised by the recursive calls:
+         D  : the deserialiser for types of the module (one unit of fuel down)
+         Dh : the deserialiser in the environment of graphql_client::serde_with *)
+  Section Blocks.
+    Variable D : rtype -> json -> option rvalue.
+    Variable Dh : rtype -> json -> option rvalue.
+    Variable env : list ritem.
+
+    Definition int_or_string (x : json) : option rvalue :=
+      match Dh (RNamed "IntOrString") x with
+      | Some (VVariant "Int" (Some (VInt z))) => Some (VStr (decimal z))     (* From<IntOrString> for String *)
+      | Some (VVariant "Str" (Some (VStr s))) => Some (VStr s)
+      | _ => None
+      end.
+
+    (* serde_with::IdContainer: String, and Option / Vec nestings of it *)
+    Fixpoint id_container_deser (t : rtype) (x : json) {struct t} : option rvalue :=
+      match t with
+      | ROption u => if is_null x then Some VNone else option_map VSome (id_container_deser u x)
+      | RVec u => match x with JArr l => option_map VSeq (map_opt (id_container_deser u) l) | _ => None end
+      | RNamed _ => int_or_string x
+      | _ => None
+      end.
+
+    Definition deser_field (fd : rfield) (v : json) : option rvalue :=
+      match f_deser_with fd with
+      | Some h =>
+          if String.eqb h "deserialize_id" then int_or_string v
+          else if String.eqb h "deserialize_option_id" then
+            match Dh (ROption (RNamed "IntOrString")) v with
+            | Some VNone => Some VNone
+            | Some (VSome (VVariant "Int" (Some (VInt z)))) => Some (VSome (VStr (decimal z)))
+            | Some (VSome (VVariant "Str" (Some (VStr s)))) => Some (VSome (VStr s))
+            | _ => None
+            end
+          else if String.eqb h "deserialize_id_list" then id_container_deser (f_ty fd) v
+          else None
+      | None => D (f_ty fd) v
+      end.
+
+    (* members in declaration order; flatten members are served from the collected rest *)
+    Fixpoint serve (seen : list (string * rvalue)) (fs : list rfield) (buf : list (string * json))
+      : option (list (string * rvalue)) :=
+      match fs with
+      | [] => Some []
+      | fd :: more =>
+          if f_flatten fd then
+            match strip_box (f_ty fd) with
+            | RNamed n =>
+                match find_item n env with
+                | Some (IStruct _ _ _ tfields) =>
+                    if existsb f_flatten tfields then
+                      (* a struct with inner flatten reads the buffer without taking *)
+                      match D (RNamed n) (JObj buf), serve seen more buf with
+                      | Some v, Some vs => Some ((f_ident fd, v) :: vs)
+                      | _, _ => None
+                      end
+                    else
+                      (* a plain struct takes the entries named like its fields *)
+                      let names := map field_wire tfields in
+                      match D (RNamed n) (JObj (keys_in names buf)), serve seen more (keys_out names buf) with
+                      | Some v, Some vs => Some ((f_ident fd, v) :: vs)
+                      | _, _ => None
+                      end
+                | Some (IAlias _ _) | Some (ITagEnum _ _ _ _ _) =>
+                    (* alias: resolved by the recursive call; tagged enum: reads without taking.
+                       (an alias to a plain struct would take; the generator never flattens an alias) *)
+                    match D (RNamed n) (JObj buf), serve seen more buf with
+                    | Some v, Some vs => Some ((f_ident fd, v) :: vs)
+                    | _, _ => None
+                    end
+                | _ => None
+                end
+            | _ => None
+            end
+          else
+            match field_value seen fd, serve seen more buf with
+            | Some v, Some vs => Some ((f_ident fd, v) :: vs)
+            | _, _ => None
+            end
+      end.
+
+    (* struct from the entries of an object *)
+    Definition deser_struct (fields : list rfield) (m : list (string * json)) : option rvalue :=
+      let own := filter (fun fd => negb (f_flatten fd)) fields in
+      match claim deser_field own m [] [] with
+      | None => None
+      | Some (seen, rest) => option_map VStruct (serve seen fields rest)
+      end.
+
+    (* serde_json also accepts a positional array for a struct without flatten *)
+    Fixpoint deser_positional (fs : list rfield) (js : list json) : option (list rvalue) :=
+      match fs, js with
+      | [], [] => Some []
+      | fd :: fr, x :: xr => match deser_field fd x, deser_positional fr xr with
+                             | Some v, Some vs => Some (v :: vs) | _, _ => None end
+      | _, _ => None
+      end.
+
+    Definition deser_tagged (tag : string) (variants : list rvariant) (m : list (string * json)) : option rvalue :=
+      match filter (fun e => String.eqb (fst e) tag) m with
+      | [(_, JStr s)] =>
+          let content := filter (fun e => negb (String.eqb (fst e) tag)) m in
+          let pick := match find (fun v => String.eqb (variant_wire v) s) variants with
+                      | Some v => Some v
+                      | None => find v_other variants
+                      end in
+          match pick with
+          | None => None
+          | Some v =>
+              match v_payload v with
+              | None => Some (VVariant (v_ident v) None)
+              | Some pt => option_map (fun x => VVariant (v_ident v) (Some x)) (D pt (JObj content))
+              end
+          end
+      | _ => None                            (* tag missing, duplicated, or not a string *)
+      end.
+
+    Fixpoint deser_untagged (vs : list rvariant) (j : json) : option rvalue :=
+      match vs with
+      | [] => None
+      | v :: r =>
+          match (match v_payload v with
+                 | Some pt => option_map (fun x => VVariant (v_ident v) (Some x)) (D pt j)
+                 | None => match j with JNull => Some (VVariant (v_ident v) None) | _ => None end
+                 end) with
+          | Some x => Some x
+          | None => deser_untagged r j
+          end
+      end.
+
+    Definition deser_map (u : rtype) (m : list (string * json)) : option rvalue :=
+      option_map VMap
+        (fold_left (fun acc e => match acc, D u (snd e) with
+                                 | Some a, Some v => Some (insert_kv (fst e) v a)
+                                 | _, _ => None end) m (Some [])).
+  End Blocks.
+
   Fixpoint deser (fuel : nat) (env : list ritem) (t : rtype) (j : json) {struct fuel} : option rvalue :=
     match fuel with
     | O => None
     | S f =>
-      let deser_field (fd : rfield) (v : json) : option rvalue :=
-        match f_deser_with fd with
-        | Some h =>
-            if String.eqb h "deserialize_id" then
-              match deser f henv (RNamed "IntOrString") v with
-              | Some (VVariant "Int" (Some (VInt z))) => Some (VStr (decimal z))
-              | Some (VVariant "Str" (Some (VStr s))) => Some (VStr s)
-              | _ => None
-              end
-            else if String.eqb h "deserialize_option_id" then
-              match deser f henv (ROption (RNamed "IntOrString")) v with
-              | Some VNone => Some VNone
-              | Some (VSome (VVariant "Int" (Some (VInt z)))) => Some (VSome (VStr (decimal z)))
-              | Some (VSome (VVariant "Str" (Some (VStr s)))) => Some (VSome (VStr s))
-              | _ => None
-              end
-            else if String.eqb h "deserialize_id_list" then
-              (* serde_with::IdContainer: String, and Option / Vec nestings of it *)
-              (fix go (t : rtype) (x : json) {struct t} : option rvalue :=
-                 match t with
-                 | ROption u => if is_null x then Some VNone else option_map VSome (go u x)
-                 | RVec u => match x with JArr l => option_map VSeq (map_opt (go u) l) | _ => None end
-                 | RNamed _ =>
-                     match deser f henv (RNamed "IntOrString") x with
-                     | Some (VVariant "Int" (Some (VInt z))) => Some (VStr (decimal z))
-                     | Some (VVariant "Str" (Some (VStr s))) => Some (VStr s)
-                     | _ => None
-                     end
-                 | _ => None
-                 end) (f_ty fd) v
-            else None
-        | None => deser f env (f_ty fd) v
-        end in
-      (* struct from the entries of an object *)
-      let deser_struct (fields : list rfield) (m : list (string * json)) : option rvalue :=
-        let own := filter (fun fd => negb (f_flatten fd)) fields in
-        match claim deser_field own m [] [] with
-        | None => None
-        | Some (seen, rest) =>
-            (* members in declaration order; flatten members are served from the collected rest *)
-            option_map VStruct ((fix serve (fs : list rfield) (buf : list (string * json)) : option (list (string * rvalue)) :=
-               match fs with
-               | [] => Some []
-               | fd :: more =>
-                   if f_flatten fd then
-                     match strip_box (f_ty fd) with
-                     | RNamed n =>
-                         match find_item n env with
-                         | Some (IStruct _ _ _ tfields) =>
-                             if existsb f_flatten tfields then
-                               (* a struct with inner flatten reads the buffer without taking *)
-                               match deser f env (RNamed n) (JObj buf), serve more buf with
-                               | Some v, Some vs => Some ((f_ident fd, v) :: vs)
-                               | _, _ => None
-                               end
-                             else
-                               (* a plain struct takes the entries named like its fields *)
-                               let names := map field_wire tfields in
-                               match deser f env (RNamed n) (JObj (keys_in names buf)), serve more (keys_out names buf) with
-                               | Some v, Some vs => Some ((f_ident fd, v) :: vs)
-                               | _, _ => None
-                               end
-                         | Some (IAlias _ _) | Some (ITagEnum _ _ _ _ _) =>
-                             (* alias: resolved by the recursive call; tagged enum: reads without taking.
-                                (an alias to a plain struct would take; the generator never flattens an alias) *)
-                             match deser f env (RNamed n) (JObj buf), serve more buf with
-                             | Some v, Some vs => Some ((f_ident fd, v) :: vs)
-                             | _, _ => None
-                             end
-                         | _ => None
-                         end
-                     | _ => None
-                     end
-                   else
-                     match field_value seen fd, serve more buf with
-                     | Some v, Some vs => Some ((f_ident fd, v) :: vs)
-                     | _, _ => None
-                     end
-               end) fields rest)
-        end in
+      let D := deser f env in
+      let Dh := deser f henv in
       match t with
-      | ROption u => if is_null j then Some VNone else option_map VSome (deser f env u j)
-      | RVec u => match j with JArr l => option_map VSeq (map_opt (deser f env u) l) | _ => None end
-      | RBox u => deser f env u j
-      | RMap u =>
-          match j with
-          | JObj m =>
-              option_map VMap
-                (fold_left (fun acc e => match acc, deser f env u (snd e) with
-                                         | Some a, Some v => Some (insert_kv (fst e) v a)
-                                         | _, _ => None end) m (Some []))
-          | _ => None
-          end
+      | ROption u => if is_null j then Some VNone else option_map VSome (D u j)
+      | RVec u => match j with JArr l => option_map VSeq (map_opt (D u) l) | _ => None end
+      | RBox u => D u j
+      | RMap u => match j with JObj m => deser_map D u m | _ => None end
       | RNamed n =>
           match prim_deser n j with
           | Some r => r
@@ -227,68 +279,27 @@ Section Serde.
               match find_item n env with
               | None => Some (VJson j)                      (* a type the consumer provides: opaque *)
               | Some (IAliasPath _ _) => Some (VJson j)
-              | Some (IAlias _ u) => deser f env u j
+              | Some (IAlias _ u) => D u j
               | Some (IOpaque _) => None
               | Some (IUnit _ _ _) => match j with JNull => Some VUnit | _ => None end
               | Some (IStruct _ _ _ fields) =>
                   match j with
-                  | JObj m => deser_struct fields m
+                  | JObj m => deser_struct D Dh env fields m
                   | JArr l =>
-                      (* serde_json also accepts a positional array for a struct without flatten *)
                       if existsb f_flatten fields then None
-                      else if Nat.eqb (List.length l) (List.length fields) then
-                        option_map (fun vs => VStruct (combine (map f_ident fields) vs))
-                          ((fix go (fs : list rfield) (js : list json) : option (list rvalue) :=
-                              match fs, js with
-                              | [], [] => Some []
-                              | fd :: fr, x :: xr => match deser_field fd x, go fr xr with
-                                                     | Some v, Some vs => Some (v :: vs) | _, _ => None end
-                              | _, _ => None
-                              end) fields l)
-                      else None
+                      else option_map (fun vs => VStruct (combine (map f_ident fields) vs))
+                                      (deser_positional D Dh fields l)
                   | _ => None
                   end
               | Some (ITagEnum _ _ _ tag variants) =>
-                  match j with
-                  | JObj m =>
-                      match filter (fun e => String.eqb (fst e) tag) m with
-                      | [(_, JStr s)] =>
-                          let content := filter (fun e => negb (String.eqb (fst e) tag)) m in
-                          let pick := match find (fun v => String.eqb (variant_wire v) s) variants with
-                                      | Some v => Some v
-                                      | None => find v_other variants
-                                      end in
-                          match pick with
-                          | None => None
-                          | Some v =>
-                              match v_payload v with
-                              | None => Some (VVariant (v_ident v) None)
-                              | Some pt => option_map (fun x => VVariant (v_ident v) (Some x)) (deser f env pt (JObj content))
-                              end
-                          end
-                      | _ => None                            (* tag missing, duplicated, or not a string *)
-                      end
-                  | _ => None
-                  end
-              | Some (IUntagged _ _ variants) =>
-                  (fix try (vs : list rvariant) : option rvalue :=
-                     match vs with
-                     | [] => None
-                     | v :: r =>
-                         match (match v_payload v with
-                                | Some pt => option_map (fun x => VVariant (v_ident v) (Some x)) (deser f env pt j)
-                                | None => match j with JNull => Some (VVariant (v_ident v) None) | _ => None end
-                                end) with
-                         | Some x => Some x
-                         | None => try r
-                         end
-                     end) variants
+                  match j with JObj m => deser_tagged D tag variants m | _ => None end
+              | Some (IUntagged _ _ variants) => deser_untagged D variants j
               | Some (IExtEnum _ _ _ variants) =>
                   match j with
                   | JObj [(k, v)] =>
                       match find (fun x => String.eqb (variant_wire x) k) variants with
                       | Some x => match v_payload x with
-                                  | Some pt => option_map (fun y => VVariant (v_ident x) (Some y)) (deser f env pt v)
+                                  | Some pt => option_map (fun y => VVariant (v_ident x) (Some y)) (D pt v)
                                   | None => match v with JNull => Some (VVariant (v_ident x) None) | _ => None end
                                   end
                       | None => None
